@@ -43,7 +43,11 @@ contract(CMx + 'calinski_harabasz_index', props=['C17', 'C06', 'C13', 'C19'],
                 'returns': dict(NUM='numerator', DEN='denominator', GC='global_center'),
                 'return_kinds': dict(NUM='arr2[real]', DEN='arr2[real]', GC='real'),
                 'native_ensures': [("[C17] native:matches-the-definition-with-the-per-column-centroid",
-                                    "result == chi_definition(stacked_training_data, model)")]},
+                                    "result == chi_definition(stacked_training_data, model)"),
+                                   # what the code computes today (scalar centre, finding F7): every other part of the definition --
+                                   # all members of every cluster, the size weights, both degrees of freedom -- is pinned by this one
+                                   ("[C17] native:pinned:matches-the-definition-with-the-scalar-centre",
+                                    "result == chi_definition_scalar(stacked_training_data, model)")]},
          ensures=[("[C17] ratio-and-degrees-of-freedom", "implies(trace(DEN) != 0, result == (trace(NUM) / trace(DEN)) * "
                    "((stacked_training_data.shape[0] - len(model.clusters)) / (len(model.clusters) - 1)))"),
                   # the property: cluster means are compared with the PER-COLUMN centroid of all windows
@@ -63,6 +67,11 @@ specfn('chi_definition', native="lambda X, model: (lambda K, T, g: "
        "(sum(len(c.member_points) * float(np.sum((c.stacked_data_mean - g) ** 2)) for c in model.clusters) / (K - 1)) / "
        "(sum(float(np.sum((X[p] - c.stacked_data_mean) ** 2)) for c in model.clusters for p in c.member_points) / (T - K)))"
        "(len(model.clusters), len(X), X.mean(axis=0))")
+
+specfn('chi_definition_scalar', native="lambda X, model: (lambda K, T, g: "
+       "(sum(len(c.member_points) * float(np.sum((c.stacked_data_mean - g) ** 2)) for c in model.clusters) / (K - 1)) / "
+       "(sum(float(np.sum((X[p] - c.stacked_data_mean) ** 2)) for c in model.clusters for p in c.member_points) / (T - K)))"
+       "(len(model.clusters), len(X), float(np.mean(X)))")
 
 specfn('bic_definition', native="lambda model: (lambda L, cps: "
        "sum(cps[l] for i, l in enumerate(L) if i == 0 or l != L[i - 1]) * math.log(len(L)) - 2 * "
